@@ -723,6 +723,10 @@ SAME_FORMS = {
     'func:-x': ('func', 'f(x)', '-x', lambda e: e['f'](e['x']), lambda e: -e['x'], 1),
     'func:ff': ('func', 'f(x)', 'f(f(x))', lambda e: e['f'](e['x']), lambda e: e['f'](e['f'](e['x'])), 1),
     'func:2x+d': ('func', 'f(x)', '2*x', lambda e: e['f'](e['x']), lambda e: 2 * e['x'], 1),
+    # the answer applies the drawn function to constants only (uses no variable): it is still redrawn at every sample
+    'func:const': ('func', 'f(2)+3', '3+f(2)', lambda e: e['f'](2) + 3, lambda e: 3 + e['f'](2), 1),
+    'func:const5': ('func', 'f(2)+3', '5', lambda e: e['f'](2) + 3, lambda e: 5, 1),
+    'func:constx': ('func', 'f(2)+3', 'x+3', lambda e: e['f'](2) + 3, lambda e: e['x'] + 3, 1),
     'num:same': ('num', 'a_{1}*x', 'x*a_{1}', lambda e: e['a'] * e['x'], lambda e: e['x'] * e['a'], 1),
     'num:pad': ('num', 'a_{1}*x', 'a_{1}*x+a_{2}-a_{2}', lambda e: e['a'][0] * e['x'], lambda e: e['a'][0] * e['x'], 2),
     # a_{1} and a_{2} are drawn from the same menu; which draw is which is left open: the miss |a1-a2|*|x| is symmetric
@@ -781,7 +785,7 @@ class SameSample(Family):
         execs, grades, v = explore_counting(grader, student, menus, n, k, tol, [(expf, 1)], stuf, per=per,
                                             sig='same-sample:%s' % form,
                                             label='FormulaGrader answer %r tolerance %r (%s)' % (answer, tol, kind))
-        always = form.split(':')[1] in ('same', 'odd', 'pad', 'expanded')
+        always = form.split(':')[1] in ('same', 'odd', 'pad', 'expanded', 'const')
         return counted(execs, grades, v, nontrivial=True if always else None)
 
 
